@@ -149,7 +149,7 @@ def configs(tier):
         cfgs.append(dict(branch="sympy", eigs=[["E0", "E1", "E2"], ["E3", "E4", "E5"], ["E6"]], indices=[[a, b] for a in range(3) for b in range(3)]))
         cfgs.append(dict(branch="numpy", eigs=[["0", "4", "4"], ["2", "2"]], indices=[[a, b] for a in range(2) for b in range(2)]))
     jobs = [("vf.props.solvers", "c16_diagonal", c) for c in cfgs]
-    for name in ("boson_scalar", "boson_2x2", "boson_2blocks", "spin_boson", "fermions", "fermion_boson"):
+    for name in ("boson_scalar", "boson_2x2", "boson_2blocks", "spin_boson", "fermions", "fermion_boson", "ladder", "boson_ladder", "spin_fermion"):
         jobs.append(("vf.props.secondq", "c16_2nd_quant", dict(set=name, _job="2nd_quant")))
     from .implicit import configs_c16_direct
 
